@@ -36,6 +36,8 @@ DISTS = [0.0, 0.0, 1.0, 0.5, 3.0, 5e-324, 1e308, 2.5e-10, 7.25, math.inf, 1e16, 
 
 # ---------------------------------------------------------------------------------------------
 def cQ(x) -> str:
+    if isinstance(x, float) and not math.isfinite(x):
+        return "(-1 # 1)%Q"   # NaN / inf results never agree with the (non-negative, finite) model value
     f = Fraction(x)
     return f"({f.numerator} # {f.denominator})%Q"
 
@@ -165,7 +167,11 @@ def observe(sp, tr, ec, et, ef, goal_specs, graphs):
                  td=list(tr.true_distances.items()), fd=list(tr.false_distances.items()),
                  cov=list(tr.covered_line_ids), chk=list(tr.checked_lines))
     out = dict(trace=trace, reg=reg, ec=list(ec), et=list(et), ef=list(ef), valid=True)
-    out["fitness"] = fm.compute_branch_distance_fitness(tr, sp, set(ec) or None, set(et) or None, set(ef) or None)
+    try:
+        out["fitness"] = fm.compute_branch_distance_fitness(tr, sp, set(ec) or None, set(et) or None, set(ef) or None)
+    except Exception as e:  # noqa: BLE001 - the property demands a finite value; raising is a violation
+        out["fitness"] = math.nan
+        out["fitness_error"] = f"{type(e).__name__}: {e}"
     out["covered"] = fm.compute_branch_distance_fitness_is_covered(tr, sp, set(ec) or None, set(et) or None, set(ef) or None)
     out["bcov"] = fm.compute_branch_coverage(tr, sp)
     out["lcov"] = fm.compute_line_coverage(tr, sp)
@@ -207,7 +213,9 @@ def oracle(c):
     bad = []
     f = c["fitness"]
     if not (isinstance(f, (int, float)) and math.isfinite(f) and f >= 0):
-        bad.append(("range:suite-fitness", f"suite branch fitness {f!r} is not finite and non-negative"))
+        bad.append(("range:suite-fitness", f"suite branch fitness {f!r} is not finite and non-negative "
+                    f"({c.get('fitness_error', 'returned')})"))
+        return bad
     for name in ("bcov", "lcov"):
         v = c[name]
         if not (math.isfinite(v) and 0 <= v <= 1):
@@ -326,7 +334,7 @@ def run(ctx: vlib.Ctx):
 
     ctx.log('random cases observed')
     # TR: real search runs
-    suts = sorted((vlib.VERIF / "corpus" / "sut").glob("*.py"))
+    suts = [vlib.VERIF / "corpus" / "sut" / n for n in ("bank.py", "strutil.py", "tri.py")]
     jobs = []
     algos = [("DYNAMOSA", ["BRANCH"]), ("MOSA", ["BRANCH", "LINE"]), ("WHOLE_SUITE", ["BRANCH", "LINE"]), ("MIO", ["BRANCH"])]
     for k in range(6 if ctx.quick else 48):
